@@ -11,6 +11,8 @@ package main
 import "strings"
 
 type preinst struct {
+	pairs bool // also instantiate two-variable quantifiers (second attempt)
+	hints []*Term
 	ints  []*Term
 	strs  map[string][]*Term // sf.name -> ground Str arguments (by position 0..)
 	apps  map[string][][]*Term
@@ -20,7 +22,7 @@ type preinst struct {
 }
 
 func collectCandidates(all []*Term, focus []*Term) *preinst {
-	p := &preinst{strs: map[string][]*Term{}, apps: map[string][][]*Term{}, limit: 900, seen: map[string]bool{}}
+	p := &preinst{strs: map[string][]*Term{}, apps: map[string][][]*Term{}, limit: 1500, seen: map[string]bool{}}
 	bound := map[string]bool{}
 	for _, a := range all {
 		a.Walk(func(x *Term) {
@@ -74,6 +76,17 @@ func collectCandidates(all []*Term, focus []*Term) *preinst {
 					}
 					if d, ok := defs[x.Op]; ok {
 						next = append(next, d)
+					}
+				}
+				// terms a skolem constant is compared with: (= sk.i (- n 1)) suggests n-1
+				if level == 0 && !x.IsSym && len(x.Args) == 2 && (x.Op == "=" || x.Op == "<" || x.Op == "<=" || x.Op == ">" || x.Op == ">=") && x.Args[0].S == SInt {
+					for side := 0; side < 2; side++ {
+						a, b := x.Args[side], x.Args[1-side]
+						if a.IsSym && len(a.Args) == 0 && strings.HasPrefix(a.Op, "sk.") && isGround(b) && b.Size() <= 14 {
+							if _, isC := b.IntVal(); !isC {
+								addInt(b)
+							}
+						}
 					}
 				}
 				// index expressions of array reads: (select a (+ off i)) suggests i
@@ -157,6 +170,29 @@ func (p *preinst) walk(ctx []*Term, t *Term, depth int) {
 	case "=>":
 		p.walk(append(append([]*Term{}, ctx...), t.Args[0]), t.Args[1], depth)
 	case "forall":
+		if len(t.Bound) == 2 && t.Bound[0].S == SInt && t.Bound[1].S == SInt && p.pairs {
+			// two integer variables: pairs of the skolem constants (and their
+			// successors), which is what distinctness / ordering facts need
+			var cs []*Term
+			cs = append(cs, p.hints...)
+			nsk := 0
+			for _, c := range p.ints {
+				if c.IsSym && len(c.Args) == 0 && strings.HasPrefix(c.Op, "sk.") && nsk < 6 {
+					nsk++
+					cs = append(cs, c)
+					if c.IsSym && len(c.Args) == 0 {
+						cs = append(cs, Add(c, IntLit(1)))
+					}
+				}
+			}
+			for _, c1 := range cs {
+				for _, c2 := range cs {
+					inst := t.Args[0].Subst(map[string]*Term{t.Bound[0].Name: c1, t.Bound[1].Name: c2})
+					p.emit(ctx, stripQuant(inst))
+				}
+			}
+			return
+		}
 		if len(t.Bound) != 1 {
 			return
 		}
@@ -245,9 +281,18 @@ func hasQuantStrict(t *Term) bool {
 	return found
 }
 
-func preInstantiate(D *Decls, asserts []*Term, focus []*Term) []*Term {
+func preInstantiate(D *Decls, asserts []*Term, focus []*Term, withPairs bool, hints []*Term) []*Term {
 	all := append(append([]*Term{}, asserts...), focus...)
 	p := collectCandidates(all, focus)
+	p.pairs = withPairs
+	hs := map[string]bool{}
+	for _, h := range hints {
+		if k := h.String(); !hs[k] {
+			hs[k] = true
+			p.hints = append(p.hints, h)
+		}
+	}
+	p.ints = append(append([]*Term{}, p.hints...), p.ints...)
 	// content equality is identity of string ids: streq(a,b) = (sid a = sid b).
 	// For every ground atom streq(a, b) the link to the bytes is made explicit:
 	//   sid a = sid b  ==> len(a) = len(b)  and equal bytes at the candidates
@@ -279,7 +324,16 @@ func preInstantiate(D *Decls, asserts []*Term, focus []*Term) []*Term {
 			wit = append(wit, Imp(And(StrEq(pr.a, pr.b), Le(IntLit(0), c), Lt(c, SLen(pr.a))), Eq(SAt(pr.a, c), SAt(pr.b, c))))
 		}
 	}
+	// successors of skolem positions (shifted sequences: seqdel, append)
+	var succ []*Term
+	for _, c := range p.ints {
+		if c.IsSym && len(c.Args) == 0 && strings.HasPrefix(c.Op, "sk.") && len(succ) < 4 {
+			succ = append(succ, Add(c, IntLit(1)))
+		}
+	}
+	p.ints = append(p.ints, succ...)
 	p.out = append(p.out, wit...)
+	p.engineInstances(all) // first: these must not fall victim to the instance limit
 	for _, a := range asserts {
 		if hasQuantStrict(a) {
 			p.walk(nil, a, 0)
@@ -370,6 +424,13 @@ func (p *preinst) engineInstances(all []*Term) {
 				p.emit(nil, And(Eq(SOff(x), IntLit(0)),
 					Imp(And(Le(IntLit(0), c), Lt(c, IntLit(128))), And(Eq(SLen(x), IntLit(1)), Eq(Select(SArr(x), IntLit(0)), c))),
 					Imp(And(Le(IntLit(128), c), Lt(c, IntLit(2048))), Eq(SLen(x), IntLit(2)))))
+			case "seqdel":
+				seen[k] = true
+				sq, pp := x.Args[0], x.Args[1]
+				p.emit(nil, Eq(SeqLen(x), Sub(SeqLen(sq), IntLit(1))))
+				for _, c := range p.ints {
+					p.emit(nil, Eq(Select(SeqArr(x), c), Ite(Lt(c, pp), Select(SeqArr(sq), c), Select(SeqArr(sq), Add(c, IntLit(1))))))
+				}
 			case "seqshift":
 				seen[k] = true
 				for _, c := range p.ints {
